@@ -208,6 +208,24 @@ def _bitop(ip, op, a, b):
                 return a
             if _pow2(m):
                 return SV(x + z3.If((x / m) % 2 == 0, m, -m), 'int')
+    if okb and isinstance(bv, int) and bv >= 0 and bin(bv).count('1') <= 40:
+        # constant mask: x & m is the sum of the selected bits (floor div/mod = two's complement for negatives too)
+        m = bv
+        bits = [b for b in range(m.bit_length()) if (m >> b) & 1]
+        and_e = z3.IntVal(0)
+        for b_ in bits:
+            and_e = and_e + ((x / (1 << b_)) % 2) * (1 << b_)
+        if not ip.st.merge and len(bits) > 1:
+            # when the path already fixes the masked bits, use the constant (keeps later queries linear)
+            if not ip.st.feasible(and_e != 0):
+                and_e = z3.IntVal(0)
+            elif not ip.st.feasible(and_e != m):
+                and_e = z3.IntVal(m)
+        if op is ast.BitAnd:
+            return SV(simp(and_e), 'int')
+        if op is ast.BitOr:
+            return SV(simp(x + m - and_e), 'int')
+        return SV(simp(x + m - 2 * and_e), 'int')
     # general case: bounded operands through bit-vectors when bounds are known
     w = ip.st.ghost.get('bitwidth')
     if w:
